@@ -37,7 +37,10 @@ func genServerName(r *gen.Rand) string {
 	case 0:
 		host = fmt.Sprintf("%d.%d.%d.%d", r.Intn(256), r.Intn(256), r.Intn(256), r.Intn(256))
 	case 1:
-		host = "[" + gen.Pick(r, []string{"::1", "2001:db8::1", "fe80::1:2:3", "::", "1:2:3:4:5:6:7:8", "::ffff:1.2.3.4"}) + "]"
+		host = gen.Pick(r, []string{"::1", "2001:db8::1", "fe80::1:2:3", "::", "1:2:3:4:5:6:7:8", "::ffff:1.2.3.4", "::ffff:10.0.0.1", "64:ff9b::1.2.3.4"})
+		if !r.Chance(0.2) {
+			host = "[" + host + "]" // an IPv6 literal is only a host in brackets
+		}
 	default:
 		n := r.Range(1, 20)
 		b := make([]byte, n)
@@ -215,6 +218,8 @@ func c17Identifiers(c *mon.Ctx) {
 	for _, s := range []string{"", "@", "@:", "@a:", "@:b", "@a:b", "!a:b", "!:b", "!a:", "!", "a", ":", ":80", "a:", "a:80", "a:65535", "a:65536", "a:99999", "a:-1", "a:+1", "a: 80",
 		"[::1]", "[::1]:80", "[::1]:", "[::1", "::1", "[]", "[1.2.3.4]", "[1.2.3.4]:80", "[::1%eth0]", "[g::1]", "1.2.3.4", "1.2.3.4:8448", "256.1.1.1", "a..b", "-a", "a_b", "a b", "é.example",
 		"@a:[::1]:80", "@a:b:c", "@a:b:80", "@A:b", "@a+b:c", "@a b:c", "@é:c", "!a b:c", "!é:c", "!a:b:c:80", "@" + strings.Repeat("a", 252) + ":b", "@" + strings.Repeat("a", 253) + ":b",
+		"::ffff:1.2.3.4", "::ffff:1.2.3.4:8448", "@a:::ffff:1.2.3.4", "!a:::ffff:1.2.3.4", "1::", "2001:db8::1", "2001:db8::1:8448",
+		"!" + strings.Repeat("a", 251) + ":bc", "!" + strings.Repeat("a", 252) + ":bc", "!" + strings.Repeat("a", 300) + ":bc", "!a:" + strings.Repeat("b", 251), "!a:" + strings.Repeat("b", 252), "!" + strings.Repeat("é", 126) + ":b", "!" + strings.Repeat("é", 127) + ":b",
 		"!" + strings.Repeat("A", 42), "!" + strings.Repeat("A", 43), "!" + strings.Repeat("A", 44), "!" + strings.Repeat("A", 42) + "+", "!" + strings.Repeat("A", 42) + "="} {
 		if c.Shard == 0 {
 			all(s, false)
